@@ -88,6 +88,10 @@ def gen_angle(rng, kind: int) -> Tuple[float, float, float]:
     if kind == 2:
         eps = rng.choice((0.0, 1e-12, 1e-10, 1e-8, 1e-6, 1e-5, 1e-4, 5e-4, 1e-3, 0.05, 0.0572, 0.0574, 0.06))
         return (rng.choice((90.0, -90.0, 270.0)) + rng.choice((-1, 1)) * eps, rng.uniform(0, 360), rng.uniform(0, 360))
+    if kind == 4:
+        # rotations about a single axis (the other components exactly zero) and about two axes - what level designers type
+        p, y, r = rng.uniform(-180, 360), rng.uniform(-360, 720), rng.uniform(-180, 360)
+        return rng.choice(((0.0, y, 0.0), (p, 0.0, 0.0), (0.0, 0.0, r), (p, y, 0.0), (0.0, y, r), (p, 0.0, r), (-0.0, y, -0.0), (0.0, 90.0 * rng.randrange(-4, 8), 0.0)))
     return (rng.choice((0.0, 1e-13, -1e-13, 360.0, 359.99999999999994)), rng.uniform(-1e-9, 1e-9), rng.choice((0.0, 180.0, -1e-14)))
 
 
@@ -455,9 +459,9 @@ def law_near_twins(run, rng, a, engine, case) -> None:
 
 
 def one_case(run, rng, i, engine) -> None:
-    kind = (0, 0, 1, 2, 2, 3)[i % 6]
+    kind = (0, 4, 1, 2, 4, 3, 0, 2, 4)[i % 9]
     a = gen_angle(rng, kind)
-    b = gen_angle(rng, rng.choice((0, 1, 2)))
+    b = gen_angle(rng, rng.choice((0, 1, 2, 4)))
     v = gen_vec(rng)
     case = {'id': i, 'a': a, 'b': b, 'v': v}
     m, e = law_matrix(run, a, engine, case)
